@@ -12,7 +12,7 @@ import ast
 from fractions import Fraction
 from typing import Optional
 
-from ..program import AnalysisError, Program, unparse, short, walk_no_nested, increment_of, sequential_expand, single_defs, xunparse, inline_helpers
+from ..program import punparse, AnalysisError, Program, unparse, short, walk_no_nested, increment_of, sequential_expand, single_defs, xunparse, inline_helpers
 from ..report import Report
 from . import c06, c19
 
@@ -176,9 +176,7 @@ def trip_count_rule(prog: Program, rep: Report) -> None:
     inc = [increment_of(n) for n in walk_no_nested(upd.node) if (increment_of(n) or ("", 0))[0] == "self.step"]
     inc_v = inc[0][1] if len(inc) == 1 else None
     warm_step = None
-    for q, f in prog.module("model").functions.items():
-        if f.cls != "Model" or f.name == "update":
-            continue
+    for f in (prog.view("model.Model.__init__"),):
         for n in walk_no_nested(f.node):
             if isinstance(n, ast.Assign) and unparse(n.targets[0]) == "self.timer.step":
                 try:
@@ -473,13 +471,13 @@ def numbering_rule(prog: Program, rep: Report) -> None:
             fmt = [c for c in ast.walk(body[ys[0]]) if isinstance(c, ast.Call) and isinstance(c.func, ast.Attribute) and c.func.attr == "format"]
             cnt = unparse(fmt[0].args[0]) if fmt and fmt[0].args else None
             incs = [i for i, st in enumerate(body) if increment_of(st) == (cnt, 1)]
-            ok = len(incs) == 1 and ys[0] < incs[0] and "filename.parent" in unparse(body[ys[0]])
+            ok = len(incs) == 1 and ys[0] < incs[0] and "filename.parent" in punparse(body[ys[0]].value, fi.node)
     elif isinstance(loop, ast.For) and isinstance(loop.iter, ast.Call) and unparse(loop.iter.func) in ("itertools.count", "count"):
         step_ok = len(loop.iter.args) <= 1 or (len(loop.iter.args) == 2 and unparse(loop.iter.args[1]) == "1")
         ys = [st for st in loop.body if isinstance(st, ast.Expr) and isinstance(st.value, ast.Yield)]
         if len(ys) == 1 and len(loop.body) == 1 and step_ok:
             fmt = [c for c in ast.walk(ys[0]) if isinstance(c, ast.Call) and isinstance(c.func, ast.Attribute) and c.func.attr == "format"]
-            ok = bool(fmt) and fmt[0].args and unparse(fmt[0].args[0]) == unparse(loop.target) and "filename.parent" in unparse(ys[0])
+            ok = bool(fmt) and fmt[0].args and unparse(fmt[0].args[0]) == unparse(loop.target) and "filename.parent" in punparse(ys[0].value, fi.node)
     rep.check(rule, fi.qual, "yield parent/template.format(n) for n = start, start+1, ...", ok, what_bad="file numbers must increase by exactly one per file, the first file carrying the start number", what_ok="consecutive numbers", loc=fi.loc())
 
 
